@@ -29,6 +29,8 @@ def gen_history(seed, tier, cache=False, nsteps=(2, 6), multi_out_p=0.25, tpl_p=
         if t["kind"] == "genrule" and t.get("dir") is None and ro.chance(0.3 if cache else 0.15):
             t["optlog"] = True
             t["optional_outs"] = ["*.optlog"]
+        if t["kind"] == "genrule" and t.get("dir") is None and len(t["outs"]) == 1 and ro.chance(0.35):
+            t["anon"] = True
     reedit = None
     if rng.chance(0.3):
         # a source file that reaches a command only through a filegroup, edited several times in a row
